@@ -20,7 +20,7 @@
    correspondence check (tools/props/C05.py) and by C05_spellings / C05_line_examples below. *)
 From Coq Require Import QArith Qcanon Floats.
 From SC.Model Require Import Base Num NumQ NumF64 Types Config Case Match Post Parser Items Interp RuleFns Rules
-     Rx Api Run64.
+     Regex Rx Lexer Api Run64.
 From SC.Spec Require Import Percent.
 From SC.Gen Require Import Regexes.
 From SC.Proofs Require Import C05.
@@ -232,6 +232,50 @@ Theorem C05_rule_selected_plus_minus : forall bexec ny line b1 e1 b2 e2 b3 e3 x1
     = Some (AItem (IMoney (ops_minus X p) c)).
 Proof. exact selected_plus_minus. Qed.
 
+(* ---- the spellings 'p%' and '%p' (the two percent regexes of config.json, regenerated) ---- *)
+
+(* for every non-empty digit string ds: the first regex on "ds%" and the second on "%ds" find
+   exactly one match, the whole literal; its NUMBER group is the span of ds (37 = '%';
+   capture = [whole; group 1; group 2; group 3]) *)
+Section Spell.
+Local Open Scope N_scope.
+
+Theorem C05_spellings : forall c1 c2 (ds : str),
+  percent_cres = [c1; c2] -> ds <> [] -> forallb digit ds = true ->
+  let n := N.of_nat (length ds) in
+  (caps_iter c1 (ds ++ [37%N]) = [[Some (0, n + 1); Some (0, n); None; Some (n, n + 1)]] /\
+   cap_name c1 [Some (0, n + 1); Some (0, n); None; Some (n, n + 1)] "NUMBER" = Some (0, n) /\
+   slice (ds ++ [37%N]) (0, n) = ds) /\
+  (caps_iter c2 (37%N :: ds) = [[Some (0, n + 1); Some (0, 1); Some (1, n + 1); None]] /\
+   cap_name c2 [Some (0, n + 1); Some (0, 1); Some (1, n + 1); None] "NUMBER" = Some (1, n + 1) /\
+   slice (37%N :: ds) (1, n + 1) = ds).
+Proof. exact spellings_full. Qed.
+
+(* ... so the lexer's percent parser adds the same token for both: one Active Percent token over
+   the whole literal whose value is the decimal reading of ds *)
+Theorem C05_spellings_token : forall {F} {NF : Num F} (cfg : config F) c1 c2 (ds : str) (x : F),
+  percent_cres = [c1; c2] -> ds <> [] -> forallb digit ds = true ->
+  read_decimal cfg ds = Some x ->
+  let n := N.of_nat (length ds) in
+  let shape (r : res (@tstate F)) :=
+      match r with
+      | Ok st => map (fun t => (ti_start t, ti_end t, ti_ty t, ti_active t)) (ts_infos st)
+      | Panic _ => []
+      end in
+  shape (over_regexes (percent_body cfg (ds ++ [37%N])) (ds ++ [37%N]) [c1] empty_state)
+    = [(0, n + 1, Some (TPercent x), true)] /\
+  shape (over_regexes (percent_body cfg (37%N :: ds)) (37%N :: ds) [c2] empty_state)
+    = [(0, n + 1, Some (TPercent x), true)].
+Proof. exact (@spellings_token). Qed.
+
+(* the hypotheses hold of the current configuration *)
+Theorem C05_spellings_nonvacuous :
+  (exists c1 c2, percent_cres = [c1; c2]) /\ forallb digit (s "0123456789") = true /\
+  (forall c, digit c = true <-> 48 <= c <= 57).
+Proof. exact spellings_nonvacuous. Qed.
+
+End Spell.
+
 (* ---- non-vacuity ---- *)
 Set Warnings "-inexact-float".
 Theorem C05_line_examples :
@@ -291,3 +335,6 @@ Print Assumptions C05_rule_selected_plus_minus.
 Print Assumptions C05_ops_unfold.
 Print Assumptions C05_line_examples.
 Print Assumptions C05_rational_examples.
+Print Assumptions C05_spellings.
+Print Assumptions C05_spellings_token.
+Print Assumptions C05_spellings_nonvacuous.
